@@ -161,7 +161,7 @@ type bounds struct {
 
 func boundsFor(o *core.Options) bounds {
 	if o.Thorough() {
-		return bounds{stride: 1, perClass: 2, k: 2, cancelStride: 12, limitStride: 12, k3Stride: 24, k3WorldsPerMod: 2000}
+		return bounds{stride: 1, perClass: 2, k: 2, cancelStride: 12, limitStride: 12, k3Stride: 24}
 	}
 	b := bounds{stride: 6, perClass: 1, k: 2, cancelStride: 48, limitStride: 48}
 	// development overrides: trailing arguments "stride=N cancel=N limit=N" (strides over the class list)
@@ -488,7 +488,7 @@ func Run(o *core.Options) int {
 	r.Set("main_sweep_model_stride", b.stride)
 	r.Set("max_tuples", b.k)
 	if b.stride > 1 {
-		r.Set("bound_note", fmt.Sprintf("quick runs every %d-th signature class of the family (thorough: all classes, 2 models per class, plus |T|=3 on every 24th class capped at 2000 worlds per model)", b.stride))
+		r.Set("bound_note", fmt.Sprintf("quick runs every %d-th signature class of the family (thorough: all classes, 2 models per class, plus |T|=3 on every 24th class)", b.stride))
 	}
 
 	for _, a := range o.Args {
